@@ -167,36 +167,11 @@ def same(a, b):
     return a == b
 
 
-# ------------------------------------------------------------------ the region of the listed finding
-def _num_like(s, with_float):
-    """would Python's int() (and float()) read this string — what a number member of a union does first"""
-    for conv in ([int, float] if with_float else [int]):
-        try:
-            conv(s)
-            return True
-        except ValueError:
-            pass
-    return False
-
-
+# ------------------------------------------------------------------ the regions of listed findings
 def regions(u: Universe, obj):
-    """ids of listed findings the instance falls under (from the field kinds and values only)"""
-    found = set()
-
-    def walk(o):
-        for fname, kind, shape in u.specs[type(o).__name__]:
-            v = getattr(o, fname)
-            for it in (v if isinstance(v, list) else [v]):
-                if it is None:
-                    continue
-                if is_dataclass(it):
-                    walk(it)
-                elif kind in ("u_int_str", "u_float_str") and isinstance(it, str) and _num_like(it, kind == "u_float_str"):
-                    found.add("C04-union-str-as-number")
-
-    for top in (obj if isinstance(obj, list) else [obj]):
-        walk(top)
-    return found
+    """ids of listed findings the instance falls under (none at present: the str-as-number decoding of
+    union fields is repaired, see known_findings.json `fixed`)"""
+    return set()
 
 
 # ------------------------------------------------------------------ the case behind a seed
